@@ -115,11 +115,11 @@ def UniqueArc.deserializeInPlace {α σ ε δ : Type} (P : Payload α σ ε δ) 
 inductive Call
   -- Serializer
   | bool (b : Bool) | u8 (n : Nat) | u16 (n : Nat) | u32 (n : Nat) | u64 (n : Nat) | i32 (i : Int)
-  | str (s : String) | none | some | unit
+  | str (s : String) | none | some | unit | unitStruct (name : String)
   | seq (len : Nat) | tuple (len : Nat) | struct (name : String) (len : Nat)
   | elem | field (name : String) | end_
   -- Deserializer
-  | deBool | deU8 | deU16 | deU32 | deU64 | deI32 | deString | deOption | deUnit
+  | deBool | deU8 | deU16 | deU32 | deU64 | deI32 | deString | deOption | deUnit | deUnitStruct (name : String)
   | deSeq | deTuple (len : Nat) | deStruct (name : String) (len : Nat) | nextElem
   -- the injected failure (always last in a log)
   | fail
@@ -131,6 +131,7 @@ def Call.toString : Call → String
   | .some => "some" | .seq n => s!"seq:{n}" | .tuple n => s!"tuple:{n}"
   | .struct name n => s!"struct:{name}:{n}" | .elem => "elem" | .field name => s!"field:{name}"
   | .end_ => "end" | .unit => "unit" | .deUnit => "de_unit"
+  | .unitStruct name => s!"unit_struct:{name}" | .deUnitStruct name => s!"de_unit_struct:{name}"
   | .deBool => "de_bool" | .deU8 => "de_u8" | .deU16 => "de_u16" | .deU32 => "de_u32"
   | .deU64 => "de_u64" | .deI32 => "de_i32" | .deString => "de_string" | .deOption => "de_option"
   | .deSeq => "de_seq" | .deTuple n => s!"de_tuple:{n}" | .deStruct name n => s!"de_struct:{name}:{n}"
@@ -167,6 +168,7 @@ inductive Val
   | bool (b : Bool) | u8 (n : Nat) | u16 (n : Nat) | u32 (n : Nat) | u64 (n : Nat) | i32 (i : Int)
   | str (s : String)
   | unit                                       -- `()`: a zero-sized payload
+  | unitStruct (name : String)                 -- a zero-sized unit struct with hand-written impls
   | none | some (v : Val)
   | tuple (xs : Vals)                          -- `(A, B)`
   | seq (xs : Vals)                            -- `Vec<T>`
@@ -194,6 +196,7 @@ def Val.ser : Val → Rec → Except Err Rec
   | .i32 i, s => s.call (.i32 i)
   | .str t, s => s.call (.str t)
   | .unit, s => s.call .unit
+  | .unitStruct name, s => s.call (.unitStruct name)
   | .none, s => s.call .none
   | .some v, s => do let s ← s.call .some; v.ser s
   | .tuple xs, s => do let s ← s.call (.tuple xs.length); let s ← xs.serElems s; s.call .end_
@@ -221,6 +224,7 @@ def Val.de : Val → Rec → Except Err Rec
   | .i32 _, s => s.call .deI32
   | .str _, s => s.call .deString
   | .unit, s => s.call .deUnit
+  | .unitStruct name, s => s.call (.deUnitStruct name)
   | .none, s => s.call .deOption
   | .some v, s => do let s ← s.call .deOption; v.de s
   | .tuple xs, s => do let s ← s.call (.deTuple xs.length); xs.deElems s
